@@ -268,3 +268,128 @@ Proof.
   cbn [wfv fd_field fdecl_ snd priov]. exists (s2p "NONE"), (PNum (NInt 0)).
   repeat split; vm_compute; reflexivity.
 Qed.
+
+(* ---- the tie to the source of the serialization dispatch, re-checked by the kernel on every run --------------
+   Gen/SerializeSrc.v is re-generated from typedpy/serialization/serialization.py (harness/genmods/py2v_serialize.py):
+   serialize_val, serialize_multifield_wrapper, serialize_field, serialize_internal, serialize (mutually recursive,
+   tied by a fuelled knot).  [refines r m]: the translation's own fuel ran out, or the model declines, or r = m.
+   For EVERY class environment, field, value and instance (as Python has it, internal entries included) in the
+   stated configuration (mapper off, camel_case_convert off) the source computes NOW what Ser/Serialize.v computes. *)
+From TP Require Import Base.PyObj Base.PyOpsSerialize Gen.SerializeSrc Ser.SerializeSrcProofs.
+
+Theorem C05_src_serialize_val :
+  forall (re_match : N -> pystr -> bool) (e : env) (ens : enums) (extra : list field)
+           (repr : pyval -> pystr),
+         env_ok e = true ->
+         defaults_ok e = true ->
+         forall (k n : nat) (f : field) (p : list N) (nm m v : pyval),
+         at_ e extra p = Some f ->
+         mapper_off m = true ->
+         val_ok v = true ->
+         refines
+           (r_serialize_val (src_knot k (ser_world re_match e ens extra repr)) 
+              (iref p) nm v m (PBool false) PNone)
+           (ser_val re_match e ens (ser_struct re_match e ens n) f v).
+Proof. exact src_serialize_val_refines. Qed.
+
+Theorem C05_src_serialize_any :
+  forall (re_match : N -> pystr -> bool) (e : env) (ens : enums) (extra : list field)
+           (repr : pyval -> pystr),
+         env_ok e = true ->
+         defaults_ok e = true ->
+         forall (k n : nat) (fd nm m v : pyval),
+         fd = PNone \/ fd = ref (s2p "Anything") ->
+         mapper_off m = true ->
+         val_ok v = true ->
+         refines
+           (r_serialize_val (src_knot k (ser_world re_match e ens extra repr)) fd nm v m
+              (PBool false) PNone) (ser_any (ser_struct re_match e ens n) v).
+Proof. exact src_serialize_any_refines. Qed.
+
+(* which exceptions move on to the next option *)
+Theorem C05_src_multifield :
+  forall (re_match : N -> pystr -> bool) (e : env) (ens : enums) (extra : list field)
+           (repr : pyval -> pystr),
+         env_ok e = true ->
+         defaults_ok e = true ->
+         forall (k n : nat) (p : list N) (gs : list field) (nm m v : pyval),
+         (forall (i : nat) (g : field),
+          nth_error gs i = Some g -> at_ e extra (p ++ [N.of_nat i]) = Some g) ->
+         mapper_off m = true ->
+         val_ok v = true ->
+         refines
+           (r_serialize_multifield_wrapper (src_knot k (ser_world re_match e ens extra repr))
+              (PList (irefs p (Datatypes.length gs))) nm v m (PBool false))
+           (mfw_model (ser_val re_match e ens (ser_struct re_match e ens n))
+              (validate_weak re_match e) v gs).
+Proof. exact src_multifield_refines. Qed.
+
+(* attribute loop: skip-list, None skipping, compact form *)
+Theorem C05_src_serialize_internal :
+  forall (re_match : N -> pystr -> bool) (e : env) (ens : enums) (extra : list field)
+           (repr : pyval -> pystr),
+         env_ok e = true ->
+         defaults_ok e = true ->
+         forall (k n : nat) (cn : pystr) (d : list (pystr * pyval)) (m rm : pyval) (compact : bool),
+         mapper_off m = true ->
+         rm_ok e cn rm ->
+         pyinst_ok d = true ->
+         refines
+           (r_serialize_internal (src_knot (S k) (ser_world re_match e ens extra repr))
+              (PStruct cn d) m rm (PBool compact) (PBool false))
+           (internal_model re_match e ens (ser_struct re_match e ens n) compact cn d).
+Proof. exact src_serialize_internal_refines. Qed.
+
+Theorem C05_src_ser_struct :
+  forall (re_match : N -> pystr -> bool) (e : env) (ens : enums) (extra : list field)
+           (repr : pyval -> pystr),
+         env_ok e = true ->
+         defaults_ok e = true ->
+         forall (k n : nat) (cn : pystr) (a : list (pystr * pyval)) (m rm : pyval),
+         mapper_off m = true ->
+         rm_ok e cn rm ->
+         val_ok (PStruct cn a) = true ->
+         refines
+           (r_serialize_internal (src_knot k (ser_world re_match e ens extra repr)) 
+              (PStruct cn a) m rm (PBool false) (PBool false))
+           (ser_struct re_match e ens n (PStruct cn a)).
+Proof. exact src_ser_struct_refines. Qed.
+
+Theorem C05_src_serialize :
+  forall (re_match : N -> pystr -> bool) (e : env) (ens : enums) (extra : list field)
+           (repr : pyval -> pystr),
+         env_ok e = true ->
+         defaults_ok e = true ->
+         forall (k n : nat) (cn : pystr) (a : list (pystr * pyval)) (m : pyval) (compact : bool),
+         mapper_off m = true ->
+         val_ok (PStruct cn a) = true ->
+         refines
+           (r_serialize (src_knot k (ser_world re_match e ens extra repr)) 
+              (PStruct cn a) m (PBool compact) (PBool false))
+           (serialize re_match e ens n compact (PStruct cn a)).
+Proof. exact src_serialize_refines. Qed.
+
+(* the form that combines with C05_pure *)
+Theorem C05_src_serialize_ok :
+  forall (re_match : N -> pystr -> bool) (e : env) (ens : enums) (extra : list field)
+           (repr : pyval -> pystr),
+         env_ok e = true ->
+         defaults_ok e = true ->
+         forall (k n : nat) (cn : pystr) (a : list (pystr * pyval)) (m : pyval) 
+           (compact : bool) (j : pyval),
+         mapper_off m = true ->
+         val_ok (PStruct cn a) = true ->
+         serialize re_match e ens n compact (PStruct cn a) = Ok j ->
+         r_serialize (src_knot k (ser_world re_match e ens extra repr)) (PStruct cn a) m
+           (PBool compact) (PBool false) = Raise OutOfFuel \/
+         r_serialize (src_knot k (ser_world re_match e ens extra repr)) (PStruct cn a) m
+           (PBool compact) (PBool false) = Ok j.
+Proof. exact src_serialize_ok. Qed.
+
+Print Assumptions C05_src_serialize_val.
+Print Assumptions C05_src_serialize_any.
+Print Assumptions C05_src_multifield.
+Print Assumptions C05_src_serialize_internal.
+Print Assumptions C05_src_ser_struct.
+Print Assumptions C05_src_serialize.
+Print Assumptions C05_src_serialize_ok.
